@@ -52,3 +52,30 @@ package val
 //@   nopanic
 //@   pure
 //@   ensures result == isIntegral(v.V)
+
+//@ func init
+//@   props C01 C04
+//@   ensures #true True != nil && dynis(True, BoolVal) && True.Type == types.Bool && True.Bool().V
+//@   ensures #false False != nil && dynis(False, BoolVal) && False.Type == types.Bool && !False.Bool().V
+//@   ensures #distinct True != False
+
+//@ func Num
+//@   props C01 C04
+//@   uses types.init
+//@   nopanic
+//@   fresh
+//@   ensures isNum(result) && same(result.Num().V, n)
+
+//@ func Bool
+//@   props C01 C04
+//@   uses val.init
+//@   nopanic
+//@   pure
+//@   ensures isBool(result) && result.Bool().V == b
+
+//@ func Str
+//@   props C01 C04
+//@   uses types.init
+//@   nopanic
+//@   fresh
+//@   ensures isStr(result) && result.Str().V == s
